@@ -21,6 +21,7 @@ import (
 	"context"
 	gosql "database/sql"
 	"database/sql/driver"
+	"fmt"
 
 	"seata.apache.org/seata-go/pkg/datasource/sql/exec"
 	"seata.apache.org/seata-go/pkg/datasource/sql/types"
@@ -160,7 +161,7 @@ func (c *ATConn) createOnceTxContext(ctx context.Context) bool {
 	return onceTx
 }
 
-func (c *ATConn) createNewTxOnExecIfNeed(ctx context.Context, f func() (types.ExecResult, error)) (types.ExecResult, error) {
+func (c *ATConn) createNewTxOnExecIfNeed(ctx context.Context, f func() (types.ExecResult, error)) (result types.ExecResult, execErr error) {
 	var (
 		tx  driver.Tx
 		err error
@@ -176,6 +177,8 @@ func (c *ATConn) createNewTxOnExecIfNeed(ctx context.Context, f func() (types.Ex
 		recoverErr := recover()
 		if recoverErr != nil {
 			log.Errorf("at exec panic, recoverErr:%v", recoverErr)
+			// the caller must see a failure, not a nil result with a nil error
+			result, execErr = nil, fmt.Errorf("at exec panic: %v", recoverErr)
 			if tx != nil {
 				rollbackErr := tx.Rollback()
 				if rollbackErr != nil {
